@@ -52,12 +52,14 @@ def _add(store, stix_data, allow_custom=True, version=None):
         # versioned objects should have a "modified" property.
         if "modified" in stix_obj:
             if stix_obj["id"] in store._data:
-                obj_family = store._data[stix_obj["id"]]
+                store._data[stix_obj["id"]].add(stix_obj)
             else:
+                # (A family goes into the store once its first member is in:
+                # an object which can't be added must not leave an empty
+                # family behind.)
                 obj_family = _ObjectFamily()
+                obj_family.add(stix_obj)
                 store._data[stix_obj["id"]] = obj_family
-
-            obj_family.add(stix_obj)
 
         else:
             store._data[stix_obj["id"]] = stix_obj
